@@ -14,8 +14,9 @@
   code; the result is the error CLASS (spec.MatrixError code / InternalServerError / other error) or
   the response.
 
-  Not modelled (the driver answers `skip`): the pseudo-ID room version (`org.matrix.msc4014`), whose
-  paths verify mxid_mapping signatures with real ed25519 keys derived from sender IDs.
+  The pseudo-ID room version (`org.matrix.msc4014`): HandleInviteV3 below; HandleSendJoin's pseudo-ID path and
+  PerformInvite (both version families) are in VModel.HandshakeInvite.  Not modelled (the driver answers `skip`):
+  PerformJoin and HandleInvite for that version.
   Caller contract assumed (the handlers panic otherwise, by explicit `panic("Missing …")`): queriers,
   verifier and context are non-nil; `HandleMakeJoinInput.RoomVersion` is a version this server knows
   (`MustGetRoomVersion`).
